@@ -54,7 +54,11 @@ def fit_case(draw, tier):
         modes = list(range(1, k + 1))
     coeffs = [draw(gen.finite(-5.0, 5.0)) for _ in modes]
     coords = draw(st.sampled_from(["default", "default", "custom"]))
-    return {"mask": mask, "kind": kind, "modes": modes, "coeffs": coeffs, "normalize": draw(st.booleans()),
+    # membership in a zernike mask is "non-zero": the same support is also given as labels, weights, negative or
+    # mixed-sign values
+    form = draw(gen.mask_forms())
+    mask = gen.apply_mask_form(mask, form, seed=int(mask.sum()) + k)
+    return {"mask": mask, "mask_form": form, "kind": kind, "modes": modes, "coeffs": coeffs, "normalize": draw(st.booleans()),
             "coords": coords, "shift": [draw(gen.finite(-1.5, 1.5)), draw(gen.finite(-1.5, 1.5))],
             "rotate": draw(st.sampled_from([0, 30.0, 90, -45.0])), "noise_seed": draw(st.integers(0, 2**31 - 1)),
             "scalar_mode": draw(st.booleans())}
@@ -85,7 +89,7 @@ def _setup(case, ctx):
     if not cond < 1e6 or sv[-1] < 1e-6 * np.sqrt(A.shape[0]):
         raise Skip("ill_conditioned_mode_set")
     contiguous = modes == list(range(1, len(modes) + 1))
-    ctx.tag("mask:" + case["kind"], "noncontiguous" if not contiguous else "modes_1..k",
+    ctx.tag("mask:" + case["kind"], "mask_values:" + case.get("mask_form", "int01"), "noncontiguous" if not contiguous else "modes_1..k",
             "unordered" if modes != sorted(modes) else None, "custom_coords" if kw else "default_coords",
             "normalize" if case["normalize"] else "raw", f"k:{len(modes)}", gen.parity_tags("m", mask.shape))
     ctx.nontrivial_if(not contiguous)
